@@ -67,16 +67,16 @@ def LogInv (P : Params) (log : List Msg) (T : List (Nat × Ev (Op P))) : Prop :=
 
 theorem backedT_of {P : Params} {log : List Msg} {T : List (Nat × Ev (Op P))} (hlog : LogInv P log T) {b : Base}
     (hb : B.backed (P.at 0) log b = true) (h : Nat) : BackedT (P.at h) (trP P h T) b := by
-  intro hh hs j hj hmem
+  intro hh hid hs j hj hmem
   unfold B.backed at hb
-  simp only [hs, Bool.not_true, Bool.false_or, List.all_eq_true, Bool.or_eq_true, Bool.not_eq_true',
+  simp only [hs, hid, bne_self_eq_false, Bool.not_true, Bool.false_or, List.all_eq_true, Bool.or_eq_true, Bool.not_eq_true',
     List.any_eq_true] at hb
   rcases hb (opId j) hmem with hx | ⟨m', hm', hsame⟩
   · have : (P.at 0).honestId (opId (P := P.at 0) j) = true := (honestId_iff (P.at 0) j).2 hj
     exact absurd (Eq.trans this.symm hx) (by simp)
   · unfold sameSigned at hsame
     simp only [Bool.and_eq_true, beq_iff_eq] at hsame
-    obtain ⟨⟨⟨⟨⟨e1, e2⟩, e3⟩, e4⟩, e5⟩, e6⟩ := hsame
+    obtain ⟨⟨⟨⟨⟨⟨e1, e2⟩, e3⟩, e4⟩, e5⟩, e6⟩, _⟩ := hsame
     have hmh : m'.height = h := by rw [e3]; exact hh
     obtain ⟨i, _, h2, _, h4, h5, h6⟩ := hlog m' hm' h hmh
     have hij : i = j := by
@@ -87,9 +87,9 @@ theorem backedT_of {P : Params} {log : List Msg} {T : List (Nat × Ev (Op P))} (
     exact ⟨h4, h5, h6⟩
 
 theorem authT_of {P : Params} {log : List Msg} {T : List (Nat × Ev (Op P))} (hlog : LogInv P log T) {m : Msg}
-    (ha : authentic P log m = true) (h : Nat) : AuthT (P.at h) (trP P h T) m := by
+    (ha : authentic P log m = true) (h : Nat) (hid : m.ident = ownIdent) : AuthT (P.at h) (trP P h T) m := by
   have ha' : B.authentic (P.at 0) log m = true := ha
-  exact ⟨backedT_of hlog (authentic_base ha') h,
+  exact ⟨hid, backedT_of hlog (authentic_base ha') h,
     fun rc hrc => ⟨backedT_of hlog ((authentic_rc ha') rc hrc).1 h,
       fun pm hpm => backedT_of hlog (((authentic_rc ha') rc hrc).2 pm hpm) h⟩⟩
 
@@ -146,7 +146,7 @@ theorem step_mstep {P : Params} (hP : P.Valid) (σ : Sys P) (hinv : InvM P hP σ
     have hen' : P.honest i = true ∧ authentic P σ.log m = true := by
       simpa [enabled] using hen
     obtain ⟨h1, h2, h3, h4⟩ := ctrl_processMsg_multi (P.cfg i) (capacity_two P i) (AuthT (P.at m.height) (trP P m.height σ.trace)) i
-      (σ.ctrl i) m (hinv.shape i) (authT_of hinv.log hen'.2 m.height)
+      (σ.ctrl i) m (hinv.shape i) (fun hid => authT_of hinv.log hen'.2 m.height hid)
     exact ⟨i, m.height, _, _, _, hen'.1, rfl, h1, h2, h3, h4⟩
   | timeout i h r =>
     have hi : P.honest i = true := hen
